@@ -17,4 +17,3 @@ INVARIANT LawDuplicateI
 INVARIANT LawSingleI
 INVARIANT LawCodeRefinesI
 INVARIANT LawCodeCallsI
-INVARIANT LawOutIsSpec
